@@ -286,8 +286,142 @@ Proof.
   - intros <-. rewrite diff_identical in H. inversion H. destruct L; reflexivity.
 Qed.
 
+(* ------------------------------------------------------------------ string inputs: the line-split regex
+   The regex value is REGENERATED from diff.bare (Gen/Includes.v).  [split_spec] is the meaning the property gives
+   to "the lines of a text": LF or CRLF ends a line.  The lemmas below hold for the regex as it is in the code
+   now; a changed pattern makes them fail to compile. *)
+Fixpoint split_spec (s cur : str) : list str :=
+  match s with
+  | [] => [rev cur]
+  | c :: t =>
+    if (c =? 10)%N then rev cur :: split_spec t []
+    else if (c =? 13)%N then
+      match t with
+      | c2 :: t2 => if (c2 =? 10)%N then rev cur :: split_spec t2 [] else split_spec t (c :: cur)
+      | [] => split_spec t (c :: cur)
+      end
+    else split_spec t (c :: cur)
+  end.
+
+Definition line_break_at (pos : nat) (rest : str) : mres :=
+  match rest with
+  | c :: t =>
+    if (c =? 13)%N then match t with c2 :: _ => if (c2 =? 10)%N then MYes (S (S pos)) [] else MNo | [] => MNo end
+    else if (c =? 10)%N then MYes (S pos) [] else MNo
+  | [] => MNo
+  end.
+
+Lemma m_line_split F pos rest : 6 <= F ->
+  m UC F gen_diff_line_split pos rest [] (fun p _ c => MYes p c) = line_break_at pos rest.
+Proof.
+  intros HF. do 6 (destruct F as [|F]; [lia|]). clear HF.
+  unfold gen_diff_line_split, line_break_at. cbn [m pred option_map].
+  destruct rest as [|c t]; [reflexivity|].
+  destruct (c =? 13)%N eqn:E13.
+  - replace (Nat.eqb (S pos) pos) with false by (symmetry; apply Nat.eqb_neq; lia).
+    destruct t as [|c2 t2].
+    + apply N.eqb_eq in E13. subst c. reflexivity.
+    + destruct (c2 =? 10)%N eqn:E10; [reflexivity|].
+      apply N.eqb_eq in E13. subst c. reflexivity.
+  - destruct (c =? 10)%N; reflexivity.
+Qed.
+
+Lemma fuel_for_line_split whole : 6 <= fuel_for gen_diff_line_split whole.
+Proof. unfold fuel_for, gen_diff_line_split. cbn [rsize]. lia. Qed.
+
+Lemma re_split_from_spec whole : forall fuel pos rest cur, length rest < fuel ->
+  re_split_from UC gen_diff_line_split whole fuel pos rest cur = Some (split_spec rest cur).
+Proof.
+  induction fuel as [|f IH]; intros pos rest cur Hf; [lia|].
+  cbn [re_split_from]. destruct rest as [|c t]; [reflexivity|].
+  rewrite m_line_split by apply fuel_for_line_split.
+  cbn [line_break_at split_spec]. cbn [length] in Hf.
+  destruct (c =? 13)%N eqn:E13.
+  - assert (E10 : (c =? 10)%N = false) by (apply N.eqb_eq in E13; subst c; reflexivity). rewrite E10.
+    destruct t as [|c2 t2].
+    + rewrite IH by (cbn; lia). reflexivity.
+    + destruct (c2 =? 10)%N eqn:E.
+      * replace (Nat.ltb pos (S (S pos))) with true by (symmetry; apply Nat.ltb_lt; lia).
+        replace (S (S pos) - pos) with 2 by lia. cbn [skipn]. cbn [length] in Hf. rewrite IH by lia. reflexivity.
+      * rewrite IH by (cbn [length] in *; lia). reflexivity.
+  - destruct (c =? 10)%N eqn:E10.
+    + replace (Nat.ltb pos (S pos)) with true by (symmetry; apply Nat.ltb_lt; lia).
+      replace (S pos - pos) with 1 by lia. cbn [skipn]. rewrite IH by lia. reflexivity.
+    + rewrite IH by lia. reflexivity.
+Qed.
+
+(* regexSplit(diffRegexLineSplit, s) never fails and is the LF/CRLF line split *)
+Theorem split_lines_spec s : split_lines s = DOk (split_spec s []).
+Proof. unfold split_lines, re_split. rewrite re_split_from_spec by lia. reflexivity. Qed.
+
+(* ... and the LF/CRLF line split undoes the joining of CR/LF-free lines with any mixture of LF and CRLF *)
+Definition clean_line (l : str) : bool := forallb (fun c => negb (c =? 10)%N && negb (c =? 13)%N) l.
+Fixpoint unsplit (ls : list (str * bool)) (last : str) : str :=
+  match ls with
+  | [] => last
+  | (l, crlf) :: t => l ++ (if crlf then [13; 10]%N else [10%N]) ++ unsplit t last
+  end.
+
+Lemma split_spec_clean l : forall rest cur, clean_line l = true ->
+  split_spec (l ++ rest) cur = match rest with
+                               | [] => [rev (rev l ++ cur)]
+                               | _ => split_spec rest (rev l ++ cur)
+                               end.
+Proof.
+  induction l as [|c l IH]; intros rest cur H.
+  - cbn [app rev]. destruct rest; reflexivity.
+  - cbn in H. apply andb_true_iff in H. destruct H as [Hc Hl]. apply andb_true_iff in Hc. destruct Hc as [H10 H13].
+    apply negb_true_iff in H10. apply negb_true_iff in H13.
+    cbn [app split_spec]. rewrite H10, H13. rewrite IH by exact Hl.
+    cbn [rev]. rewrite <- app_assoc. reflexivity.
+Qed.
+
+Theorem split_spec_unsplit ls : forall last,
+  forallb clean_line (map fst ls) = true -> clean_line last = true ->
+  split_spec (unsplit ls last) [] = map fst ls ++ [last].
+Proof.
+  induction ls as [|[l crlf] ls IH]; intros last H Hlast.
+  - cbn [unsplit map app]. rewrite <- (app_nil_r last) at 1. rewrite split_spec_clean by exact Hlast.
+    rewrite app_nil_r, rev_involutive. reflexivity.
+  - cbn in H. apply andb_true_iff in H. destruct H as [Hl Hls]. cbn [unsplit map fst].
+    rewrite split_spec_clean by exact Hl. rewrite app_nil_r.
+    destruct crlf; cbn [app split_spec N.eqb Pos.eqb]; rewrite rev_involutive, IH by assumption; reflexivity.
+Qed.
+
+(* the line list a diffLines argument stands for *)
+Definition spec_lines (i : diff_input) : list str :=
+  match i with InText s => split_spec s [] | InParts parts => flat_map (fun p => split_spec p []) parts end.
+
+Lemma input_lines_spec i : input_lines i = DOk (spec_lines i).
+Proof.
+  destruct i as [s|parts]; cbn; [apply split_lines_spec|].
+  induction parts as [|p t IH]; [reflexivity|]. cbn. rewrite split_lines_spec, IH. reflexivity.
+Qed.
+
+Theorem diff_inputs_spec a b : exists d, diff_inputs a b = DOk d /\ Final (spec_lines a) (spec_lines b) d.
+Proof. unfold diff_inputs. rewrite !input_lines_spec. apply diff_lines_spec. Qed.
+
+Theorem diff_inputs_reconstruct a b d : diff_inputs a b = DOk d ->
+  left_of d = spec_lines a /\ right_of d = spec_lines b /\ Forall (fun b => b_lines b <> []) d.
+Proof.
+  intros H. destruct (diff_inputs_spec a b) as [d' [E [F1 [F2 F3]]]]. rewrite E in H. inversion H. subst d'.
+  repeat split; auto. apply nonempty_Forall, F3.
+Qed.
+
+(* the same text with LF and with CRLF endings: only Identical blocks *)
+Theorem diff_inputs_same_lines a b d : diff_inputs a b = DOk d -> spec_lines a = spec_lines b ->
+  Forall (fun b => b_kind b = Identical) d.
+Proof.
+  unfold diff_inputs. rewrite !input_lines_spec. intros H E. rewrite E in H. apply diff_identical_only_identical in H. exact H.
+Qed.
+
 (* non-vacuity / sanity: F6's replay input, and the while+continue path *)
 Example diff_example :
   diff_lines [U "a"; U "b"; U "c"] [U "a"; U "x"; U "c"] =
   DOk [mk Identical [U "a"]; mk Remove [U "b"]; mk Add [U "x"]; mk Identical [U "c"]].
+Proof. vm_compute. reflexivity. Qed.
+
+Example diff_example_crlf :
+  diff_inputs (InText (U "a\00000d\00000ab\00000d\00000a")) (InParts [U "a\00000ab"; U ""]) =
+  DOk [mk Identical [U "a"; U "b"; U ""]].
 Proof. vm_compute. reflexivity. Qed.
